@@ -1156,7 +1156,7 @@ def run(ctx):
                        "alignment: every score note (chain head) appears once as match or deletion, every performed note once as match, insertion or ornament",
                        "stored note_on_tick/note_off_tick of a performed note describe the clock the performance was loaded with; the seconds are the data (the property asks for the seconds rounded to the nearest tick of the clock of the file being written)"]
     ctx.matchers["C08-K1"] = k1_matcher
-    ok, why = ctx.coq_props(expect_min=15)
+    ok, why = ctx.coq_props(expect_min=29)
     quick = ctx.tier == "quick"
     ncases = 330 if quick else 4000
     work = ctx.work
